@@ -77,7 +77,8 @@ structure SliceRange where
   deriving Repr, DecidableEq
 
 def offsetFromStart (i : Int) (n : Nat) : Int := if i ≥ 0 then i else (n : Int) + i
-def offsetFromEnd (i : Int) (n : Nat) : Int := if i ≥ 0 then (n : Int) - 1 - i else -i - 1
+/-- `-(index + 1)` since fix `b98f268` (was `-index - 1`, which overflows for `isize::MIN`). -/
+def offsetFromEnd (i : Int) (n : Nat) : Int := if i ≥ 0 then (n : Int) - 1 - i else -(i + 1)
 
 /-- `isize::clamp` (callers guarantee `lo ≤ hi`). -/
 def clampI (x lo hi : Int) : Int := if x < lo then lo else if x > hi then hi else x
@@ -446,7 +447,7 @@ def writeAll (store : List Nat) (start : Nat) (d : Dims) (oshape : List Nat)
   (idxs oshape).foldl (fun st idx => st.set (start + offset d idx) (g idx)) store
 
 /-- `TensorBase::append` on a tensor whose `Vec` has capacity `max cap len`
-(`axis < ndim`; the harness does not generate other axes).  Since fix `0049079`
+(`axis ≥ ndim` panics before any mutation since fix `90df0e8`, after the shape check).  Since fix `0049079`
 `expanded_layout` computes the new length with `checked_min_data_len`; in the ideal (`Nat`)
 arithmetic of this model that is `minDataLen`. -/
 def appendOp (t : TState) (axis cap : Nat) (oshape : List Nat) : Except Err TState := do
@@ -477,7 +478,7 @@ def appendOp (t : TState) (axis cap : Nat) (oshape : List Nat) : Except Err TSta
         let st := writeAll st1 start sd oshape g
         pure ⟨st, ⟨0, st.length, nd⟩⟩
 
-/-- `TensorBase::clip_dim` (`axis < ndim`). -/
+/-- `TensorBase::clip_dim` (`axis ≥ ndim` panics before any mutation since fix `90df0e8`). -/
 def clipDim (t : TState) (axis start stop : Nat) : Except Err TState := do
   let m ← materialize t
   let d := m.view.dims
